@@ -1,8 +1,108 @@
-(* C11 -- Cleartext signature framework preserves the text and the signature.  Statements only. *)
+(* C11 -- Cleartext signature framework preserves the text and the signature.
+   This file holds statements only; every proof is `exact <lemma>` into Proofs/ (or a closed computation
+   on a concrete witness). *)
 From Coq Require Import ZArith List Bool.
 Import ListNotations.
-Require Import PV.Lib.Bytes PV.Model.Armor PV.Model.Cleartext PV.Spec.Rfc4880_cleartext.
+Require Import PV.Lib.Bytes PV.Model.Armor PV.Model.Cleartext PV.Spec.Rfc4880_cleartext
+  PV.Proofs.Cleartext_lemmas PV.Proofs.Cleartext_lemmas2.
 Open Scope Z_scope.
 
-Example C11_smoke : dash_unescape (dash_escape [45; 10; 45]) = [45; 10; 45].
+(* ---- dash escaping ---- *)
+(* removed exactly once on reading, for every text *)
+Theorem C11_unescape_escape : forall t, dash_unescape (dash_escape t) = t.
+Proof. exact unescape_escape. Qed.
+Print Assumptions C11_unescape_escape.
+
+(* applied to every line that needs it and to no other: it is the RFC 4880 7.1 dash-escaped text *)
+Theorem C11_dash_escape_eq_rfc : forall t, dash_escape t = rfc_dash_escape t.
+Proof. exact dash_escape_eq_rfc. Qed.
+Print Assumptions C11_dash_escape_eq_rfc.
+
+(* every line of the escaped text either does not start with "-" or starts with "- " ... *)
+Theorem C11_escaped_lines_safe : forall t, Forall (fun l => safe_line l = true) (split_lines (dash_escape t)).
+Proof. exact escaped_lines_safe. Qed.
+Print Assumptions C11_escaped_lines_safe.
+
+(* ... hence no line of it can be taken for an armor header line (BEGIN PGP ... / BEGIN PGP SIGNED MESSAGE) *)
+Theorem C11_no_line_is_armor_header : forall l, safe_line l = true -> nostart l = true.
+Proof. exact no_line_is_armor_header. Qed.
+Print Assumptions C11_no_line_is_armor_header.
+
+(* ---- the frame: written out and read back ---- *)
+(* for every ASCII text: the Hash: list, the armor headers and the signature packets come back unchanged and
+   without CRC warning; the text comes back up to one final CR (class C11/final-lone-cr-ambiguous) *)
+Theorem C11_frame_roundtrip : forall names t h p,
+  names <> [] -> Forall (fun n => wf_hash_name n = true) names ->
+  is_ascii_text t = true -> wf_headers h -> wf_bytes p -> p <> [] ->
+  read (render names t h p) = Some (Some (hash_names names), strip_cr t, headers_opt h, p, false).
+Proof. exact frame_roundtrip. Qed.
+Print Assumptions C11_frame_roundtrip.
+
+(* outside the defect classes the text itself comes back and the signed octets are the RFC 4880 7.1 octets *)
+Theorem C11_frame_outside_defects : forall names t h p,
+  names <> [] -> Forall (fun n => wf_hash_name n = true) names -> wf_headers h -> wf_bytes p -> p <> [] ->
+  defect_non_ascii t = false -> defect_final_cr t = false -> defect_trailing_blanks t = false ->
+  read (render names t h p) = Some (Some (hash_names names), t, headers_opt h, p, false)
+  /\ canon_pgpy t = canon_rfc71 t.
+Proof.
+  intros names t h p Nn Fn Hh Wp Np D1 D2 D3. split.
+  - rewrite <- (proj1 (final_cr_iff t) D2) at 2. apply frame_roundtrip; try assumption.
+    unfold defect_non_ascii in D1. destruct (is_ascii_text t); [reflexivity|discriminate].
+  - apply canon_agree_iff, D3.
+Qed.
+Print Assumptions C11_frame_outside_defects.
+
+Example C11_frame_premises :
+  Forall (fun n => wf_hash_name n = true) [[83; 72; 65; 50; 53; 54]; [83; 72; 65; 45; 49]] /\
+  defect_non_ascii [45; 32; 97; 10; 45; 45; 10; 13; 10; 70] = false /\
+  defect_final_cr [45; 32; 97; 10; 45; 45; 10; 13; 10; 70] = false /\
+  defect_trailing_blanks [45; 32; 97; 10; 45; 45; 10; 13; 10; 70] = false.
+Proof. repeat split; repeat constructor. Qed.
+
+(* ---- Hash: header ---- *)
+Theorem C11_hash_header_lists_all : forall names n, In n (hash_names names) <-> In n names.
+Proof. exact hash_names_in. Qed.
+Print Assumptions C11_hash_header_lists_all.
+
+(* ---- signed octets ---- *)
+(* PGPy's \r?\n -> \r\n told line by line *)
+Theorem C11_canon_pgpy_lines : forall t, canon_pgpy t = join [13; 10] (canon_lines t).
+Proof. exact canon_pgpy_lines. Qed.
+Print Assumptions C11_canon_pgpy_lines.
+
+(* the signed octets are the RFC 4880 7.1 octets exactly when no line ends in SP / TAB *)
+Theorem C11_canon_agree_iff : forall t, canon_pgpy t = canon_rfc71 t <-> defect_trailing_blanks t = false.
+Proof. exact canon_agree_iff. Qed.
+Print Assumptions C11_canon_agree_iff.
+
+(* C11/trailing-blanks-signed: "a \n" *)
+Theorem C11_canon_agree_refuted : exists t, canon_pgpy t <> canon_rfc71 t.
+Proof. exists [97; 32; 10]. vm_compute. discriminate. Qed.
+
+(* C11/non-ascii-cleartext-unreadable: a text outside [ -~\r\n\t] is never read back *)
+Theorem C11_non_ascii_unreadable : forall names t h p, defect_non_ascii t = true -> read (render names t h p) = None.
+Proof. exact non_ascii_unreadable. Qed.
+Print Assumptions C11_non_ascii_unreadable.
+Example C11_non_ascii_witness : defect_non_ascii [99; 97; 102; 233] = true.
 Proof. reflexivity. Qed.
+
+(* C11/final-lone-cr-ambiguous: "a\r" written with LF line ends reads back as "a" *)
+Theorem C11_frame_final_cr_refuted : exists names t h p r,
+  is_ascii_text t = true /\ read (render names t h p) = Some r /\ snd (fst (fst (fst r))) <> t.
+Proof.
+  exists [[83; 72; 65; 50; 53; 54]], [97; 13], [], [1; 2; 3]. eexists.
+  split; [reflexivity|]. split; [vm_compute; reflexivity|]. vm_compute. discriminate.
+Qed.
+
+(* the reader before commit debc39b (greedy last cleartext line): a message carried over a CR LF transport read
+   back with a final CR, so its signed octets changed; the present reader gives the same signed octets *)
+Theorem C11_crlf_transport_prefix_refuted : exists names t h p r,
+  read_prefix (to_crlf (render names t h p)) = Some r /\ canon_pgpy (snd (fst (fst (fst r)))) <> canon_pgpy t.
+Proof.
+  exists [[83; 72; 65; 50; 53; 54]], [120; 10; 45; 121], [], [1; 2; 3]. eexists.
+  split; [vm_compute; reflexivity|]. vm_compute. discriminate.
+Qed.
+Example C11_crlf_transport_now : exists r,
+  read (to_crlf (render [[83; 72; 65; 50; 53; 54]] [120; 10; 45; 121] [] [1; 2; 3])) = Some r /\
+  canon_pgpy (snd (fst (fst (fst r)))) = canon_pgpy [120; 10; 45; 121].
+Proof. eexists. split; vm_compute; reflexivity. Qed.
